@@ -570,3 +570,7 @@ def run(ctx):
     call_compat(ctx, 'R20.11', ['nbdime.webapp.'] if ctx.tier == 'quick' else ['nbdime.'], 'the request is answered with 500 although it is valid')
     from ..names import name_binding
     name_binding(ctx, 'R20.12', ['nbdime.webapp.'] if ctx.tier == 'quick' else ['nbdime.'])
+
+
+from .extra import with_extra  # noqa: E402
+run = with_extra('C20', run)
